@@ -342,9 +342,16 @@ class Queue(Greenlet):
             self._add_queued(entry)
 
     def _remove(self, id):
-        self._pool_spawn('store', self.store.remove, id)
-        self.queued_ids.discard(id)
-        self.active_ids.discard(id)
+        self._pool_spawn('store', self._remove_stored, id)
+
+    def _remove_stored(self, id):
+        # The id stays "active" until it is gone from storage, otherwise a
+        # late wait() announcement of it could start another attempt.
+        try:
+            self.store.remove(id)
+        finally:
+            self.queued_ids.discard(id)
+            self.active_ids.discard(id)
 
     def _bounce(self, envelope, reply):
         bounce = self.bounce_factory(envelope, reply)
